@@ -771,11 +771,17 @@ def reparse_guarded(res, risky, timeout=8.0):
             os._exit(0)
     os.close(w)
     buf = b""
-    t_end = time.time() + timeout
+    from common.proc import really_hung
+    t0 = time.time()
+    t_end = t0 + timeout
     try:
         while True:
             left = t_end - time.time()
             if left <= 0:
+                # a loaded machine is not a hang: give up only when the child has really used its CPU budget
+                if not really_hung(pid, 0.8 * timeout, time.time() - t0, 15 * timeout):
+                    t_end = time.time() + timeout / 2.0
+                    continue
                 os.kill(pid, 9)
                 return {"hang": True, "msg": "sdn.parse of the written file did not return within %.0f s" % timeout}
             rd, _, _ = select.select([r], [], [], left)
